@@ -960,7 +960,16 @@ func SortedKeys[V any](m map[string]V) []string {
 // StartWatchdog starts a real-time watchdog outside any bubble: if the
 // scheduler makes no progress for a long time the process is abandoned with
 // the internal-error exit code (never a violation).
+// RealTicks counts 10 ms steps of real time (the clock inside a bubble is virtual).
+var RealTicks atomic.Int64
+
 func StartWatchdog() {
+	go func() {
+		for {
+			time.Sleep(10 * time.Millisecond)
+			RealTicks.Add(1)
+		}
+	}()
 	go func() {
 		last := Progress.Load()
 		lastRuns := runsDone.Load()
